@@ -113,6 +113,10 @@ def derive(kind, op, x):
         return ~x
     if op == "matmul":
         return x @ svg.Matrix(*M1)
+    if op == "radd":
+        return "M 20,20 L 21,22" + x
+    if op == "mulid":
+        return x * [svg.Matrix(), "scale(1)", "translate(0,0)", ""][len(kind) % 4]
     if op == "add":
         if kind in ("Path", "PathT"):
             return x + "L 9,9"
